@@ -9,11 +9,15 @@ ASSUME = ["totality is decided for all token sequences up to the stated length o
 SEL = {"cols": ("id, limit_x, order1", ["id", "limit_x", "order1"]), "aliases": ("id AS fromage, v AS selectee, 'a LIMIT 3' AS lit", ["fromage", "selectee", "lit"]),
        "index": ("id, m[1][0] AS mm, cfg['a']['b'] AS cb, rows[0].v AS rv, o.f AS of1", ["id", "mm", "cb", "rv", "of1"]),
        "aggs": ("g, count(*) AS c, sum(v) AS s", ["g", "c", "s"]), "aggs2": ("g, avg(v) AS a, max(v) AS mx", ["g", "a", "mx"])}
-WHERE = {"none": ("", ""), "cmp": ("v > 1", "v>1"), "kwlit": ("v > 1 AND name != 'ORDER BY x'", "v>1&&name!='ORDERBYx'"), "andor": ("v >= 2 AND w < 5 OR g = 'WHERE'", "v>=2&&w<5||g=='WHERE'")}
+LONGW = " AND ".join("v%d > %d" % (i, i) for i in range(45))          # 45 comparisons, about 180 tokens: a long clause is a clause
+WHERE = {"none": ("", ""), "long": (LONGW, LONGW.replace(" AND ", "&&").replace(" ", "")), "cmp": ("v > 1", "v>1"), "kwlit": ("v > 1 AND name != 'ORDER BY x'", "v>1&&name!='ORDERBYx'"), "andor": ("v >= 2 AND w < 5 OR g = 'WHERE'", "v>=2&&w<5||g=='WHERE'")}
 WIN = {"none": ("", "", []), "tumbling": ("TumblingWindow('10s')", "tumbling", ["10000ms"]), "sliding": ("SlidingWindow('30s', '10s')", "sliding", ["30000ms", "10000ms"]),
        "counting": ("CountingWindow(5)", "counting", ["5"]), "session": ("SessionWindow('5m')", "session", ["300000ms"]), "global": ("GLOBAL WINDOW TRIGGER WHEN COUNT(*) >= 10", "global", [])}
 HAVING = {"none": ("", ""), "alias": ("{a0} > 1", "{a0}>1"), "agg": ("max(w) >= 3", None)}    # an unselected aggregate is lowered to a hidden column: only "HAVING present" is compared
-WITH = {"none": ("", "", 0, 0), "ts": ("TIMESTAMP='ts', TIMEUNIT='ms'", "ts", 1000, 0), "tsmoo": ("TIMESTAMP='evt', TIMEUNIT='ms', MAXOUTOFORDERNESS='2s'", "evt", 1000, 2000)}
+WITH = {"none": ("", "", 0, 0), "ts": ("TIMESTAMP='ts', TIMEUNIT='ms'", "ts", 1000, 0), "tsmoo": ("TIMESTAMP='evt', TIMEUNIT='ms', MAXOUTOFORDERNESS='2s'", "evt", 1000, 2000),
+        # every unit name the parser and the engine's own messages mention (the projection gives the unit in microseconds)
+        "uss": ("TIMESTAMP='ts', TIMEUNIT='ss'", "ts", 10**6, 0), "us_s": ("TIMESTAMP='ts', TIMEUNIT='s'", "ts", 10**6, 0), "uus": ("TIMESTAMP='ts', TIMEUNIT='us'", "ts", 1, 0),
+        "umi": ("TIMESTAMP='ts', TIMEUNIT='mi'", "ts", 60 * 10**6, 0), "uhh": ("TIMESTAMP='ts', TIMEUNIT='hh', MAXOUTOFORDERNESS='1m'", "ts", 3600 * 10**6, 60000)}
 ORDER = {"none": ("", []), "one": ("{a0} DESC", ["{a0}:DESC"]), "two": ("{a0} ASC, {a1} DESC", ["{a0}:ASC", "{a1}:DESC"]),
          "descbare": ("{a0} DESC, {a1}", ["{a0}:DESC", "{a1}:ASC"]), "barefirst": ("{a0}, {a1} DESC", ["{a0}:ASC", "{a1}:DESC"])}
 JOIN = {"none": ("", []), "inner": ("JOIN meta m ON k = m.k", ["meta|m|INNER|k=k"]), "left": ("LEFT JOIN meta m ON k = m.k AND t = m.tenant", ["meta|m|LEFT|k=k&t=tenant"]),
